@@ -56,6 +56,7 @@ class C14Spec(explore.Spec):
                 out.append({"version": v, "persistence": fmt, "cb": "record"})
         out.append({"version": "2.2", "persistence": "json", "cb": "raise"})
         out.append({"version": "2.2", "persistence": "pickle", "cb": None})
+        out.append({"version": "2.2", "persistence": "json", "cb": "record", "relpath": True, "depth": 3 if tier == "quick" else 5})
         # the application lets traffic in before it calls start_persistence() (also in a later life, on an existing file)
         out += [{"version": "2.2", "persistence": fmt, "cb": "record", "defer_start": True, "depth": 5 if tier == "quick" else 6} for fmt in ("json", "pickle")]
         return out
@@ -120,9 +121,14 @@ def run(tier):
     explore.run(C14AsyncSpec(), sub, tier, 4 if tier == "quick" else 5, 200000, 600 if tier == "quick" else 900)
     report.add_all(sub.violations.values())
     app_part = run_app_part(report, tier)
+    from .. import tvp
+
+    thr_part = tvp.run_scenarios(report, PROP, "c14t", _t_run_one, list(T_SCENARIOS), 1 if tier == "quick" else 2, 240 if tier == "quick" else 900, T_RULE)
     cov = report.coverage
     cov.update(cov_sync)
     cov["asyncio_application_scripts"] = app_part
+    cov["threaded_stop_vs_message"] = thr_part
+    cov["schedules"] = thr_part["schedules"]
     wit = cov.get("witnesses", {})
     cov["rule"] = RULE + "; the same fork is explored for the asyncio gateway on the virtual loop (stop() awaits the save in the fake executor)"
     cov["asyncio_flavour"] = {"states": sub.coverage["states"], "transitions": sub.coverage["transitions"], "completed_depth": sub.coverage["completed_depth"], "witnesses": sub.coverage["witnesses"]}
@@ -138,6 +144,10 @@ def run(tier):
 
 
 def replay(data):
+    if data["replay"].get("kind") == "schedule":
+        from .. import tvp
+
+        return tvp.replay_schedule(_t_run_one, data["replay"], PROP)
     if data["replay"].get("kind") == "app-script":
         viols = run_app_script(data["replay"]["fmt"], tuple(data["replay"]["script"]))
         sigs = sorted(v.signature for v in viols)
@@ -151,6 +161,90 @@ def replay(data):
     if cfg.get("flavour") == "async":
         return e1check.replay_history(C14AsyncSpec(), data)
     return e1check.replay_history(C14Spec("thorough"), data)
+
+
+# -- threaded flavour: stop() while the poll thread is still handling a message (E2) --------------------------------
+
+T_SCENARIOS = {
+    # name: (inbound line handled by the poll thread, virtual seconds the user's event callback takes)
+    "stop-vs-battery-report-slow-callback": ("1;255;3;0;0;57", 3.0),
+    "stop-vs-value-report-slow-callback": ("1;0;1;0;2;1", 3.0),
+    "stop-vs-battery-report": ("1;255;3;0;0;57", 0.0),
+}
+
+
+def _t_run_one(name, prefix):
+    import shutil
+
+    from .. import sched as S
+    from ..canon import project_tree
+    from ..common import scratch_root
+    from .c15 import load_copy
+    from .c16 import Conn
+
+    from mysensors.gateway_serial import SerialGateway
+
+    line, slow = T_SCENARIOS[name]
+    S.install_library_shims()
+    del S.TIMERS[:]
+    d = os.path.join(scratch_root(), f"verif-pymys-{os.getpid()}", "c14t")
+    shutil.rmtree(d, ignore_errors=True)
+    os.makedirs(d)
+    sched = S.Scheduler(prefix, trace_files=("mysensors/task.py",), horizon=4000)
+    log = sched.log
+
+    def callback(msg):
+        if slow:
+            S.coop_sleep(slow)  # a user callback that takes longer than the transport's timeout (1 s)
+
+    gw = SerialGateway("/dev/verif", persistence=True, persistence_file=os.path.join(d, "p.json"), protocol_version="2.2", event_callback=callback)
+    slow_now, slow = slow, 0.0
+    gw.logic("1;255;0;0;17;2.2")
+    gw.logic("1;0;0;0;3;lamp")
+    gw.start_persistence()  # the first scheduled save runs here: nothing is unsaved when the threads start
+    slow = slow_now
+    gw.tasks.transport.protocol.connection_made(Conn(log, "c0"))
+    S.PUMP_TASKS[0] = gw.tasks
+
+    def body():
+        def reader():
+            gw.tasks.transport.protocol.handle_line(line)
+
+        def stopper():
+            try:
+                gw.stop()
+            except Exception as exc:  # pylint: disable=broad-except
+                log.append(("call-raised", type(exc).__name__, str(exc)[:100], S._site(exc)))
+
+        gw.tasks.transport._connect = lambda tr: None  # the link is already up (fake connection)
+        gw.start()
+        t1 = sched.spawn(reader, "reader")
+        t2 = sched.spawn(stopper, "stopper")
+        sched.block(lambda: not t1.alive and not t2.alive, ("join",))
+        gw.tasks._stop_event.set()
+        sched.block(lambda: all(not t.alive for t in sched.threads[1:]), ("join-rest",))
+
+    sched.run(body)
+    findings = []
+    if sched.problem is None:
+        held = project_tree(gw.sensors)
+        try:
+            after = load_copy(d, "json")
+            if after != held:
+                cls, text = diff_trees(held, after)
+                findings.append((f"stop-loses-state|{cls}", f"stop() returned while the poll thread was still handling {line!r}; after a fresh load: {text}"))
+        except Exception as exc:  # pylint: disable=broad-except
+            findings.append((f"fresh-load-raises|{type(exc).__name__}", f"after stop() a fresh load raised {type(exc).__name__}: {short(str(exc))}"))
+    sched.findings = findings
+    shutil.rmtree(d, ignore_errors=True)
+    return sched
+
+
+T_RULE = (
+    "threaded gateway started with start(): the reader thread queues one line, the poll thread handles it (the user's event "
+    "callback takes 0 or 3 virtual seconds), the application thread calls stop(); every schedule up to the preemption bound "
+    "at line granularity of task.py; oracle: what the gateway holds when everything has ended is what a fresh load yields"
+)
 
 
 # -- asyncio flavour, application as ONE coroutine: which awaits yield to the loop is part of the history ---------
